@@ -224,6 +224,19 @@ impl ColumnBuffer {
     }
 
     fn push_present(&mut self, new_present: Option<&[u8]>, count: usize) {
+        // Incoming values carry nulls but everything buffered so far is present:
+        // start tracking presence now, otherwise the incoming nulls are lost.
+        if self.present.is_none() {
+            if let Some(new_present) = new_present {
+                if (0..count).any(|i| !BitVec::is_set(new_present, i)) {
+                    let mut present = vec![0u8; self.length.div_ceil(8)];
+                    for i in 0..self.length {
+                        BitVecMut::set(&mut present, i);
+                    }
+                    self.present = Some(present);
+                }
+            }
+        }
         if let Some(all_present) = self.present.as_mut() {
             if let Some(new_present) = new_present {
                 for i in 0..count {
